@@ -471,6 +471,16 @@ func (c *RawClient) Do(op *Op) {
 			conn.Resume()
 			c.mu.Lock()
 		}
+	case "tcp_reconnect":
+		// a new control connection from the same address and port (the old one is gone)
+		if c.conn != nil && c.connUp {
+			_ = c.conn.Close()
+			c.W.Mon.ControlClosed(ustr(c.Addr))
+		}
+		c.conn, c.connUp = nil, false
+		c.mu.Unlock()
+		c.ensureConn()
+		c.mu.Lock()
 	case "tcp_close":
 		if c.conn != nil && c.connUp {
 			if hasFlag(op, "rst") {
